@@ -134,6 +134,10 @@ func parseArgsWithExpiration(args map[string]any, defaultHandler func(name strin
 			if n <= 0 {
 				return
 			}
+			if name == "expiration.unix-time-seconds" && n > math.MaxInt64/1000 {
+				// not a point in time that milliseconds can express (the value wrapped into the past)
+				return
+			}
 		}
 	}
 
